@@ -90,7 +90,7 @@ def init_tree(state):
         for op in WARM + STATES[state]:
             cls, _ = O.run(store, op, c)
             if cls != "ok":
-                raise common.HarnessError("history %r failed: %s" % (op, cls))
+                raise common.SetupFailure("history %r failed: %s" % (op, cls))
         _TREES[key] = common.snapshot(root)
     return _TREES[key]
 
